@@ -480,19 +480,30 @@ class Proofs(Driver):
         self.bound = dict(max_transactions=self.nmax, subsets="all 2^n", corruptions=[
             "each hash: bit 0 / bit 255 flipped", "each hash removed", "fresh hash inserted at each position", "each hash duplicated in place",
             "each padding bit set", "one more flag byte 0x01 / 0x80 / 0xff", "header merkle root bit 0 / 255 flipped",
-            "repeated-last-node forgeries (every odd level, every match set for n'<=10, <=2 matches beyond)", "(recorded only) extra zero flag byte"], coin="BTC")
+            "repeated-last-node forgeries (every odd level, every match set for n'<=10, <=2 matches beyond)", "(recorded only) extra zero flag byte"], coin="BTC",
+            large_blocks="honest proofs for n in %s with none / first / last / first+last / middle matched" % (list(self.BIG),))
 
     def txids(self, n):
         return [wire.sha256(("c14.proof|%s|%d|%d" % (self.seed_label, n, i)).encode()) for i in range(n)]
+
+    BIG = (255, 256, 257, 16666, 16667, 65535, 65536, 100001)
 
     def units(self):
         for n in range(1, self.nmax + 1):
             for mask in range(1 << n):
                 yield dict(n=n, mask=mask)
+        # large blocks (honest proofs only): the transaction count is a plain 32-bit field, any size is a block
+        for n in self.BIG:
+            for matched in ([], [0], [n - 1], [0, n - 1], [n // 2]):
+                yield dict(n=n, mask=0, matched=matched, big=True)
 
     def execute(self, unit):
         n, mask = unit["n"], unit["mask"]
         txids = self.txids(n)
+        if unit.get("big"):
+            case = dict(txids=None, n=n, mask=0, matched=unit["matched"], corrupt=["none"], big=True)
+            yield case, self.run(case)
+            return
         match = [(mask >> i) & 1 for i in range(n)]
         hashes, flags, nbits = refmerkle.build_proof(txids, match)
         base = dict(txids=[t.hex() for t in txids], mask=mask)
@@ -515,10 +526,12 @@ class Proofs(Driver):
                     yield case, self.run(case)
 
     def run(self, case):
-        txids = [bytes.fromhex(t) for t in case["txids"]]
+        txids = self.txids(int(case["n"])) if case.get("big") else [bytes.fromhex(t) for t in case["txids"]]
         n = len(txids)
         mask = int(case["mask"])
         match = [(mask >> i) & 1 for i in range(n)]
+        if case.get("big"):
+            match = [1 if i in set(case["matched"]) else 0 for i in range(n)]
         c = case["corrupt"]
         hashes, flags, nbits = refmerkle.build_proof(txids, match)
         root = refmerkle.merkle_root(txids)
